@@ -122,7 +122,7 @@ type CursorFault struct {
 }
 
 type CursorStep struct {
-	Op    string `json:"op"` // next, close, cancel, stall
+	Op    string `json:"op"` // next, close, cancel, stall, closepar (N goroutines call Close together)
 	N     int    `json:"n,omitempty"`
 	Ms    int    `json:"ms,omitempty"`
 	Async bool   `json:"async,omitempty"` // close/cancel from another goroutine after Ms
@@ -184,7 +184,14 @@ func genCursorCase(withFaults bool) *rapid.Generator[CursorCase] {
 		}
 		// consumer script
 		total := c.World.Files * c.World.Blocks * c.World.Rows
-		switch unif(t, "script", 10) {
+		switch unif(t, "script", 12) {
+		case 10, 11:
+			// several goroutines call Close at the same moment, mid-stream: each of
+			// them must find the query wound down when ITS call returns
+			c.Steps = append(c.Steps, CursorStep{Op: "next", N: rapid.IntRange(0, minInt(total, 100)).Draw(t, "k")}, CursorStep{Op: "closepar", N: rapid.IntRange(2, 4).Draw(t, "nclosers")})
+			if c.LatencyUs == 0 && chance(t, "parlat", 70) {
+				c.LatencyUs = pick(t, "parlatus", []int{2000, 500, 5000})
+			}
 		case 0, 1, 2:
 			// plain drain
 		case 3, 4:
@@ -256,6 +263,16 @@ type CursorObs struct {
 	MaxReads     int32
 	Timeout      string
 	LateCloseChangedErr string
+	// CloseSnaps: what the handle accounting looked like at the moment each
+	// individual Close call returned (before the end of the stream)
+	CloseSnaps []CloseSnap
+}
+
+type CloseSnap struct {
+	Who      string
+	Handles  []HandleRec
+	IterOpen int32
+	Reads    int32
 }
 
 // runCursorCase executes the script. tr is created per case around the world's stores.
@@ -347,6 +364,15 @@ func runCursorCase(c CursorCase) (*CursorObs, *Trace, *bs.BloomSearchEngine, *Vi
 		termMu.Unlock()
 		atomic.StoreInt32(&terminated, 1)
 	}
+	var snapMu sync.Mutex
+	closeAndSnap := func(who string) error {
+		err := res.Close()
+		sn := CloseSnap{Who: who, Handles: tr.Handles(), IterOpen: atomic.LoadInt32(&tr.IterOpen), Reads: atomic.LoadInt32(&tr.readsNow)}
+		snapMu.Lock()
+		o.CloseSnaps = append(o.CloseSnaps, sn)
+		snapMu.Unlock()
+		return err
+	}
 	var asyncWG sync.WaitGroup
 	var cancelDone int32
 	var syncTermDone int32 // a Close / cancel issued from the consumer goroutine has completed
@@ -398,17 +424,22 @@ func runCursorCase(c CursorCase) (*CursorObs, *Trace, *bs.BloomSearchEngine, *Vi
 					defer asyncWG.Done()
 					time.Sleep(time.Duration(ms) * time.Millisecond)
 					markTerm()
-					o.CloseErrs = append(o.CloseErrs, res.Close())
+					err := closeAndSnap("async Close")
+					snapMu.Lock()
+					o.CloseErrs = append(o.CloseErrs, err)
+					snapMu.Unlock()
 				}(st.Ms)
 				o.ClosedExplicitly = true
 			} else {
 				o.ErrBeforeClose = res.Err()
 				markTerm()
 				done := make(chan error, 1)
-				go func() { done <- res.Close() }()
+				go func() { done <- closeAndSnap("Close") }()
 				select {
 				case err := <-done:
+					snapMu.Lock()
 					o.CloseErrs = append(o.CloseErrs, err)
+					snapMu.Unlock()
 				case <-time.After(nextLimit):
 					o.Timeout = "Close did not return within 10s"
 				}
@@ -418,6 +449,36 @@ func runCursorCase(c CursorCase) (*CursorObs, *Trace, *bs.BloomSearchEngine, *Vi
 				if !gotFalse {
 					o.CloseBeforeFalse = true
 				}
+			}
+		case "closepar":
+			o.ErrBeforeClose = res.Err()
+			markTerm()
+			start := make(chan struct{})
+			alldone := make(chan struct{})
+			var pwg sync.WaitGroup
+			for i := 0; i < st.N; i++ {
+				pwg.Add(1)
+				go func(i int) {
+					defer pwg.Done()
+					<-start
+					err := closeAndSnap(fmt.Sprintf("concurrent Close %d/%d", i+1, st.N))
+					snapMu.Lock()
+					o.CloseErrs = append(o.CloseErrs, err)
+					snapMu.Unlock()
+				}(i)
+			}
+			close(start)
+			go func() { pwg.Wait(); close(alldone) }()
+			select {
+			case <-alldone:
+			case <-time.After(nextLimit):
+				o.Timeout = "concurrent Close calls did not all return within 10s"
+			}
+			o.ErrAfterClose = res.Err()
+			atomic.StoreInt32(&syncTermDone, 1)
+			o.ClosedExplicitly = true
+			if !gotFalse {
+				o.CloseBeforeFalse = true
 			}
 		case "cancel":
 			if st.Async {
